@@ -444,7 +444,7 @@ def register(M):
             else:
                 r = Ref(r.cell, r.path + (0,))
             x = m.ctx.resolve(load(r, m.ctx.resolve))
-        if isinstance(x, Adt) and x.ty == want:
+        if isinstance(x, Adt) and (x.ty == want or m.runtime_type(x) == want or m.runtime_type(x) == full.strip()):
             # type arguments: only the goal kind can differ between instantiations in this crate
             mm = re.search(r'\b(DFSGoal|Goal)<', full[len(want):] if full.startswith(want) else full.split(want, 1)[-1])
             if mm:
@@ -1060,6 +1060,42 @@ def register(M):
         c = val(m, r)
         return some(Ref(r.cell, r.path + (0, 0))) if c.fields[0].var == 1 else NONE
     reg('OnceCell', None, 'get', once_get)
+
+    # ---- Hash into a transcript hasher (C21): the hasher value is Adt('Transcript', 0, (items..)) and every
+    # primitive `write` appends one item; equal transcripts <=> equal hash under every Hasher
+    def transcript_append(m, state_arg, item):
+        r = innermost_ref(m, state_arg)
+        t = val(m, r)
+        if not (isinstance(t, Adt) and t.ty == 'Transcript'):
+            raise NotEncodable('hashing into something that is not the transcript hasher: %r' % (t,))
+        store(r, Adt('Transcript', 0, t.fields + (item,)), m.ctx.resolve)
+        return UNIT
+
+    def hash_prim(kind):
+        def h(m, a, k):
+            return transcript_append(m, a[1], Adt('(tuple)', 0, (kind, val(m, a[0]))))
+        return h
+    for t in INTS:
+        reg(t, 'Hash', 'hash', hash_prim(t))
+    reg('bool', 'Hash', 'hash', hash_prim('bool'))
+    reg('()', 'Hash', 'hash', lambda m, a, k: UNIT)
+    reg('', 'Hash', 'hash', lambda m, a, k: UNIT)
+
+    def hash_string(m, a, k):
+        sv = val(m, a[0])
+        if isinstance(sv, Adt):
+            sv = sv.fields[0]
+        return transcript_append(m, a[1], Adt('(tuple)', 0, ('str', sv)))
+    reg('String', 'Hash', 'hash', hash_string)
+    reg('str', 'Hash', 'hash', hash_string)
+
+    def hash_tuple(m, a, k):
+        tv = val(m, a[0])
+        for f in tv.fields:
+            m.call('<LTerm<U, E> as Hash>::hash::<H>', [Ref(Cell(f)), a[1]])
+        return UNIT
+    reg('(LTerm, LTerm)', 'Hash', 'hash', hash_tuple)
+    reg('(tuple)', 'Hash', 'hash', hash_tuple)
 
     # ---- closures through Fn* traits ---------------------------------------------------------
     def fn_call(m, a, k):
